@@ -17,6 +17,7 @@ from collections import Counter
 
 import common
 import impl_next
+import scorer_tie
 import seg_gen
 from consts import trainer_seg
 from props import C05
@@ -28,6 +29,10 @@ TRUSTED = [
     "OMEN score not modelled (a stub replaces scorer.omen); the p/o category that depends on it is not compared",
     "Unicode facts of the pool characters as for C05 (gen/Unicode_gen.v), incl. str.upper()",
     "equality 'up to floating-point rounding' between scorer and guesser products is measured (<= 1e-12 relative), not proved",
+    "translator tie (harness/translate_scorer.py, runtime ScorerRt.v): the reading of the accepted Python subset of "
+    "PCFGPasswordScorer.parse (statement sequences as out/bind, try/except KeyError, for loops as folds, the detectors as "
+    "oracles that return the section list they edited, Counters reading 0 for a missing key, dicts raising KeyError, int 0 / "
+    "float 0.0 identified); self.omen.parse is an oracle (C11); the detectors are the models of Detect.v / Segment.v",
 ]
 ASSUMES = [
     "C13_promise_Q: exact rational arithmetic (QProb); non-empty string; no hypothesis on the characters (the scorer's rebuild "
@@ -378,6 +383,8 @@ def run(ctx):
     lists = [training_list(rng) for _ in range(n_rs)]
     dirs = train_all(code, lists)
     vio, corr, samples = [], [], []
+    # the translated source of parse() still equals the model (or: which lemma / which construct broke)
+    corr.append(scorer_tie.obligation())
     dist = Counter()
     shards, meta = [], {}
     evaluations = 0
